@@ -279,10 +279,10 @@ def gen_graph(rng, max_nodes=7):
 
 # ---------------------------------------------------------------------------
 # scale: automata beyond the exhaustive bounds
-def gen_big_wfsa(rng, acyclic=False, peps=0.15, alphabet=None):
+def gen_big_wfsa(rng, acyclic=False, peps=0.15, alphabet=None, n_range=(8, 14)):
     """8-14 states (two-digit indices), 6-10 symbols, about two arcs per state, three or more initial and final
     states; per-state outgoing weight <= 1/2 so every closure exists."""
-    n = rng.randint(8, 14)
+    n = rng.randint(*n_range)
     if alphabet is None:
         alphabet = [chr(97 + i) for i in range(rng.randint(6, 10))]
     arcs = []
